@@ -44,7 +44,7 @@ type Program struct {
 	valueInvs  []*valueInv
 	defines    map[string]*Define
 	localsSnap map[string][]varRec // contracts/locals.json: declared variables of functions under contract
-	renameCache map[*ssa.Function]map[string]string
+	renameCache map[*ssa.Function][]renamePair
 	renameMu    sync.Mutex
 }
 
